@@ -327,3 +327,7 @@ package tree
 //@   props C08 C09 C12
 //@   requires t != nil && len(t.zeroHashes) == 33
 //@   ensures[served-proof-verifies-when-the-path-is-stored] (result1 == nil && forall(h, 1, 33, rhtHas(t)[desc(rhtL(t), rhtR(t), root, index, h)])) ==> foldUp(desc(rhtL(t), rhtR(t), root, index, 0), result0, index, 32) == root
+
+// schema clauses the content-addressing and duplicate-row assumptions rest on (C01, C07, C08; A5), pinned
+//@ filepin C01,C07,C08 migrations/tree0001.sql "rht ( hash VARCHAR PRIMARY KEY, left VARCHAR NOT NULL, right VARCHAR NOT NULL );"
+//@ filepin C01,C07,C08 migrations/tree0001.sql "root ( hash VARCHAR PRIMARY KEY, position INTEGER NOT NULL, block_num BIGINT NOT NULL, block_position BIGINT NOT NULL );"
